@@ -212,16 +212,7 @@ Proof.
   intros w Hw. apply (sumrank_zero nw _ Hz w Hw).
 Qed.
 
-(* a schedule in which every turn is effective is short; one that cannot be extended effectively is complete *)
-Lemma effective_all c s sched : effective c s sched = length sched ->
-  forall w r, sched = w :: r -> enabled s w = true.
-Proof.
-  intros H w r ->. cbn in H. destruct (enabled s w); [reflexivity|].
-  assert (effective c (step c s w) r <= length r)%nat; [|lia].
-  clear. generalize (step c s w). induction r as [|v r IH]; cbn; intros t; [lia|].
-  specialize (IH (step c t v)). destruct (enabled t v); lia.
-Qed.
-
+(* a state in which none of the nw workers can move is a state in which all of them have returned *)
 Lemma stuck_is_done c nw sched : wf c -> workers_below nw sched ->
   (forall w, (w < nw)%nat -> enabled (run c sched) w = false) -> all_done nw (run c sched).
 Proof.
